@@ -270,6 +270,12 @@ func (sws *sessionWantSender) onChange(changes []change) {
 			}
 
 			updates = append(updates, chng.update)
+		} else if len(chng.update.ks) > 0 {
+			// Blocks that were added locally (NotifyNewBlocks) come with an
+			// empty peer ID. They say nothing about any peer, but the wants
+			// for them must still be removed, otherwise they would later be
+			// sent to peers although the session already has the blocks.
+			updates = append(updates, update{ks: chng.update.ks})
 		}
 		if t := chng.availability.target; t != "" {
 			log.Debugf("change: availability: %s -> %t", t, chng.availability.available)
@@ -369,7 +375,7 @@ func (sws *sessionWantSender) processUpdates(updates []update) []cid.Cid {
 
 			// Remove the want
 			removed := sws.removeWant(c)
-			if removed != nil {
+			if removed != nil && upd.from != "" {
 				// Inform the peer tracker that this peer was the first to send
 				// us the block
 				sws.peerRspTrkr.receivedBlockFrom(upd.from)
